@@ -28,12 +28,25 @@ def utf16_field(text, n):
     return b + bytes(n - len(b))
 
 
+BODY_STYLE = "random"  # set per run by generate(): how the octets the protocol leaves to the repeater are filled
+
+
+def _body(r, n, style):
+    """`n` octets of a repeater's answer.  random: uniform; atoms: half of the octets are 00 / 01 / 02 / ff; sparse: mostly 00 with a few
+    small values (what configuration dumps of real devices look like: multi-octet fields that are zero, small enumerations)"""
+    if style == "atoms":
+        return bytearray(r.choice([0, 0, 0, 1, 2, 0xFF]) if r.random() < 0.5 else r.getrandbits(8) for _ in range(n))
+    if style == "sparse":
+        return bytearray(r.choice([0, 0, 0, 0, 0, 0, 0, 1, 1, 2]) if r.random() < 0.85 else r.getrandbits(8) for _ in range(n))
+    return bytearray(r.getrandbits(8) for _ in range(n))
+
+
 def rdac_response(step, r, wellformed=True, template=None):
     """a response a repeater would send at `step` (prefix + body long enough for every stepN handler).  With a template, all peers of the
     run answer with the SAME body (same model, cloned configuration: same reported DMR id, callsign, frequencies)"""
     if template is not None:
         r = __import__("random").Random(template * 31 + step)
-    body = bytearray(r.getrandbits(8) for _ in range(r.choice([236, 256, 300])))
+    body = _body(r, r.choice([236, 256, 300]), BODY_STYLE)
     if wellformed:
         # identity fields read by step6 must be valid UTF-16 (offsets relative to whole datagram)
         d = bytearray(EXP[step]) + body
@@ -147,6 +160,8 @@ class C18(Check):
         w, k, f, s = streams["work"], streams["knobs"], streams["fault"], streams["sched"]
         if arm.startswith("exh"):
             return self._gen_exh(index, w)
+        global BODY_STYLE
+        BODY_STYLE = k.choice(["random", "random", "atoms", "atoms", "sparse"])
         npeers = k.choice([1, 2, 2, 3, 3])
         ips = list(IPS)
         v6 = k.random() < 0.2
@@ -154,6 +169,9 @@ class C18(Check):
             ips = [IPS6[0], IPS6[1], k.choice([IPS[0], IPS6[2]])]
             if k.random() < 0.35:
                 ips = list(IPS6LL)
+            elif k.random() < 0.3:
+                # the same link-local host AND port reachable over two interfaces: the peers differ only in the scope id of the 4-tuple
+                ips = ["fe80::1|2", "fe80::1|3", "fe80::2|2"]
         v6tuple = v6 and k.random() < 0.5  # asyncio hands (host, port, flowinfo, scope_id) to datagram_received for IPv6 sockets
         knobs = {"peers": npeers, "uuid_seed": k.getrandbits(32), "shared_addr": k.random() < 0.25,
                  "app_sets_out": k.random() < 0.5, "snmp_patches": k.random() < 0.3,
@@ -216,7 +234,10 @@ class C18(Check):
                     "reg255": lambda: p2p_cmd(w.choice([0x10, 0x11, 0x12]), w, rid=255), "pingshort": lambda: p2p_ping(w, n=w.randrange(9, 15)),
                     "garbage": lambda: bytes(w.getrandbits(8) for _ in range(w.randrange(1, 40))), "empty": lambda: b"",
                 }[c]()
-            if v6tuple and ":" in src[0]:
+            if "|" in src[0]:
+                host, scope = src[0].split("|")
+                src = [host, src[1], 0, int(scope)]
+            elif v6tuple and ":" in src[0]:
                 src = src + [0, 0]
             op = {"kind": "deliver", "t": round(t, 6), "dst": dst, "src": src, "data": data.hex(), "f": fl, "snmp_fail": False}
             if rates:
@@ -253,6 +274,10 @@ class C18(Check):
                     step.clear()
             if knobs["app_sets_out"] and w.random() < 0.15:
                 ops.append({"kind": "app_set_out", "t": round(t, 6), "addr": src, "out": [src[0], w.choice([P2P_PORT, 40009])]})
+                if w.random() < 0.4:
+                    # the application also records that this repeater sits behind NAT (a public address on a third host): none of the
+                    # handlers' answers may go there -- they answer the requester / the stored outbound address
+                    ops[-1]["nat"] = [w.choice(["198.51.100.7", "10.1.1.200"]), w.choice([P2P_PORT, 50123])]
         ops.sort(key=lambda o: o["t"])
         case = {"knobs": knobs, "ops": ops, "dropped": dropped}
         if k.random() < 0.08:
@@ -426,7 +451,11 @@ class C18(Check):
             if op["kind"] == "app_set_out":
                 a = tuple(op["addr"])
                 if st.match_attr("address_in", a) is not None:
-                    st.match_incoming(a, patch={"address_out": tuple(op["out"])})
+                    pt = {"address_out": tuple(op["out"])}
+                    if op.get("nat"):
+                        pt.update(nat_enabled=True, address_nat=tuple(op["nat"]))
+                        res.fault("record_marked_behind_nat")
+                    st.match_incoming(a, patch=pt)
                     log.add(op["t"], "app", "set_out", (list(a), op["out"]))
                 continue
             A = tuple(op["src"])
